@@ -6,6 +6,7 @@
 use fun::syntax::context::Chirality;
 use fun::syntax::program::CheckedProgram;
 use fun::syntax::terms::*;
+use fun::syntax::types::{OptTyped, Ty};
 use std::rc::Rc;
 
 #[derive(Clone)]
@@ -14,6 +15,8 @@ pub enum FV {
     Data(Rc<(String, Vec<FV>)>),
     Codata(Rc<CloF>),
     Cont(K),
+    /// by-name binding of a codata-typed term: re-evaluated at every use
+    Thunk(Rc<Term>, Env),
 }
 
 pub struct CloF {
@@ -110,6 +113,17 @@ pub fn render_i64(out: &mut Vec<u8>, newline: bool, v: i64) {
 
 pub fn run(p: &CheckedProgram, args: &[i64], budget: u64) -> FunOutcome {
     let mut out = FunOutcome { stdout: Vec::new(), prints: Vec::new(), end: FunEnd::Budget, steps: 0 };
+    let codata: Vec<String> = p.codata_types.iter().map(|c| c.name.clone()).collect();
+    let is_codata = |t: &Option<Ty>| -> bool {
+        match t {
+            Some(Ty::Decl { name, type_args, .. }) => {
+                use printer::Print;
+                let full = name.clone() + &type_args.print_to_string(None);
+                codata.iter().any(|c| *c == full || c == name)
+            }
+            _ => false,
+        }
+    };
     let Some(main) = p.defs.iter().find(|d| d.name == "main") else {
         out.end = FunEnd::Stuck("no main".into());
         return out;
@@ -136,6 +150,7 @@ pub fn run(p: &CheckedProgram, args: &[i64], budget: u64) -> FunOutcome {
                 Term::XVar(x) => {
                     let covar = x.chi == Some(Chirality::Cns);
                     match env.get(&x.var, covar) {
+                        Some(FV::Thunk(t, e)) => State::Eval(t, e, k),
                         Some(v) => State::Ret(v, k),
                         None => return Err(stuck(&format!("unbound {}", x.var))),
                     }
@@ -143,7 +158,16 @@ pub fn run(p: &CheckedProgram, args: &[i64], budget: u64) -> FunOutcome {
                 Term::Op(o) => State::Eval(o.fst.clone(), env.clone(), K(Rc::new(Frame::OpL(o.op.clone(), o.snd.clone(), env, k)))),
                 Term::IfC(i) => State::Eval(i.fst.clone(), env.clone(), K(Rc::new(Frame::IfFst(i.clone(), env, k)))),
                 Term::PrintI64(p) => State::Eval(p.arg.clone(), env.clone(), K(Rc::new(Frame::Print(p.newline, p.next.clone(), env, k)))),
-                Term::Let(l) => State::Eval(l.bound_term.clone(), env.clone(), K(Rc::new(Frame::Let(l.variable.clone(), l.in_term.clone(), env, k)))),
+                Term::Let(l) => {
+                    // VERIF_REF_BYVALUE=1 is a self-test knob of the harness: with an (incorrect) by-value
+                    // reference the check must raise alarms, which shows that the workload distinguishes
+                    if is_codata(&Some(l.var_ty.clone())) && std::env::var("VERIF_REF_BYVALUE").is_err() {
+                        let th = FV::Thunk(l.bound_term.clone(), env.clone());
+                        State::Eval(l.in_term.clone(), env.bind(&l.variable, false, th), k)
+                    } else {
+                        State::Eval(l.bound_term.clone(), env.clone(), K(Rc::new(Frame::Let(l.variable.clone(), l.in_term.clone(), env, k))))
+                    }
+                }
                 Term::Call(c) => match args_step(p, ArgsFor::Call(c.name.clone()), Vec::new(), c.args.entries.clone(), 0, env, k) {
                     Ok(s) => s,
                     Err(m) => return Err(stuck(&m)),
@@ -275,7 +299,24 @@ pub fn run(p: &CheckedProgram, args: &[i64], budget: u64) -> FunOutcome {
 
     /// evaluate the next argument, or dispatch when all arguments are values
     fn args_step(p: &CheckedProgram, what: ArgsFor, done: Vec<FV>, rest: Vec<Term>, idx: usize, env: Env, k: K) -> Result<State, String> {
-        if idx < rest.len() {
+        let mut done = done;
+        let mut idx = idx;
+        while idx < rest.len() {
+            // codata-typed arguments are passed by name
+            let by_name = match rest[idx].get_type() {
+                Some(Ty::Decl { name, type_args, .. }) => {
+                    use printer::Print;
+                    let full = name.clone() + &type_args.print_to_string(None);
+                    p.codata_types.iter().any(|c| c.name == full || c.name == name)
+                }
+                _ => false,
+            };
+            let is_covar = matches!(&rest[idx], Term::XVar(x) if x.chi == Some(Chirality::Cns));
+            if by_name && !is_covar {
+                done.push(FV::Thunk(Rc::new(rest[idx].clone()), env.clone()));
+                idx += 1;
+                continue;
+            }
             let t = Rc::new(rest[idx].clone());
             return Ok(State::Eval(t, env.clone(), K(Rc::new(Frame::Args(what, done, rest, idx, env, k)))));
         }
